@@ -255,6 +255,64 @@ def rule_twopass(c, prog):
         c.ok(R, "writer:write_shared_string-registers")
     else:
         c.violation(R, "writer|register", "write_shared_string no longer registers the value with state.add_shared_string", fn.sp, instance="writer:write_shared_string-registers")
+    # the dictionary defines every hash a property element refers to: the collection filled by add_shared_string only
+    # grows, and serialize_shared_strings writes an entry for each of its elements unconditionally
+    SS_COLL = re.compile(r"(BTreeMap|HashMap|BTreeSet|HashSet|Vec|IndexMap)<.*shared_string::SharedString")
+
+    def peel(ty):
+        ty = ty or ""
+        while ty.startswith("&"):
+            ty = ty[5:] if ty.startswith("&mut ") else ty[1:]
+        return ty
+
+    def is_dict(n):
+        n = core.strip(n)
+        while n.get("k") in ("AddrOf", "Unary"):
+            n = core.strip(n["e"])
+        return n.get("k") == "Field" and "EmitState" in peel(core.strip(n["e"]).get("ty")) and SS_COLL.search(peel(n.get("ty"))) is not None
+    GROW = {"insert", "entry", "extend", "push", "or_insert", "or_insert_with"}
+    READ = {"values", "iter", "keys", "len", "is_empty", "get", "contains_key", "contains", "into_iter", "clone"}
+    shrink = []
+    n_dict = 0
+    for f2 in prog.lib_fns():
+        if f2.body is None or f2.crate != "rbx_xml":
+            continue
+        for x in core.walk_fn(f2):
+            if x.get("k") == "MethodCall" and is_dict(x["recv"]):
+                n_dict += 1
+                if x["m"] not in GROW | READ:
+                    shrink.append((f2.path, x["m"], core.loc(x)))
+    ssf = prog.fn("rbx_xml::serializer::serialize_shared_strings")
+    loop_ok = False
+    why = "no loop over the collected strings writes the entries"
+    for n in core.walk_fn(ssf):
+        if n.get("k") == "DropTemps":
+            continue
+        fl = core.as_for(n)
+        if fl is None:
+            continue
+        writes = [x for x in core.walk(fl[2]) if x.get("k") == "MethodCall" and x["m"] in ("write", "write_string", "write_characters", "end_element")]
+        if not writes or not any(is_dict(y) for y in core.walk(fl[1])):
+            continue
+        adapt = [y["m"] for y in core.walk(fl[1]) if y.get("k") == "MethodCall" and y["m"] not in ("values", "iter", "into_iter", "keys", "cloned", "copied", "enumerate")]
+        skips = [y.get("k") for y in core.walk(fl[2], into_closures=False) if y.get("k") in ("Continue", "Break")]
+        conds = [y for y in core.walk(fl[2], into_closures=False) if (y.get("k") == "If" or (y.get("k") == "Match" and y.get("src") == "Normal")) and any(w is z for w in writes for z in core.walk(y))]
+        if adapt:
+            why = f"the loop iterates the collection through {adapt}"
+        elif skips:
+            why = "the loop body can `continue` / `break` past an entry"
+        elif conds:
+            why = f"an entry is written only under a condition ({core.fingerprint(conds[0].get('c') or conds[0].get('e'), 3)[:60]})"
+        else:
+            loop_ok = True
+    if shrink:
+        c.violation(R, f"writer|dictionary-shrinks|{shrink[0][1]}", f"{shrink[0][0]} applies `{shrink[0][1]}` to the set of SharedStrings to emit: a string whose hash a property element already refers to is dropped from the dictionary, and the reader leaves its empty-BinaryString placeholder in place of it", shrink[0][2], instance="writer:dictionary-complete")
+    elif not loop_ok:
+        c.violation(R, "writer|dictionary-skips", f"serialize_shared_strings does not write an entry for every collected SharedString ({why}): the property element still carries the hash, so the value comes back as the reader's placeholder (an empty BinaryString) instead of the SharedString", ssf.sp, instance="writer:dictionary-complete")
+    elif n_dict < 2:
+        raise core.AnchorMissing("the SharedString dictionary collection of EmitState was not found")
+    else:
+        c.ok(R, "writer:dictionary-complete")
     # hash text identical on both sides: base64(hash.as_bytes()[..16])
     def hash_expr(f):
         """the expression base64-encoded as the hash text, with one level of local resolution"""
